@@ -235,10 +235,72 @@ def run_pairs(impl, cfg, out, stats):
                     w.teardown()
 
 
+def run_two_sessions(impl, cfg, out, stats):
+    """Two sessions alive at once, each opened and used through its own host with its own origin; then every (session,
+    host, origin, kind) request, each on a freshly prepared copy of that state: the verdict is that of the request alone."""
+    hosts = ['a.example', 'b.example']
+    origins = ['http://a.example', 'http://b.example', 'http://evil.example', None]
+
+    def prep():
+        w = peer.make_world(impl, server_kwargs=dict(cors_allowed_origins=cfg_value(cfg), cors_credentials=True))
+        sids = []
+        for hst in hosts:
+            org = 'http://' + hst
+            r = w.http('GET', peer.BASEQ, headers={'Origin': org}, host=hst)
+            w.run()
+            sid = peer.sid_of(r)
+            sids.append(sid)
+            if sid is not None:
+                w.call('send', sid, 'queued')
+                w.run()
+                pr = w.http('POST', peer.BASEQ + '&sid=' + sid, headers={'Origin': org}, host=hst, body=b'4hello')
+                w.run()
+        return w, sids
+    for si in (0, 1):
+        for hst in hosts:
+            for org in origins:
+                for kind in ('post', 'poll'):
+                    w, sids = prep()
+                    stats['worlds'] += 1
+                    try:
+                        if None in sids:
+                            continue        # this policy does not admit the preparing requests (judged by the single-request product)
+                        cls = classify(org, cfg, hst, None, None)
+                        if cfg == 'callable' and org is not None:
+                            cls = 'allowed' if org == LISTED else 'disallowed'
+                        before = snapshot(w)
+                        h = issue(w, impl, kind, sids[si], request_headers(org, hst, None, None), hst)
+                        stats['requests'] += 1
+                        vd = verdict(w, h, before)
+                        text = None
+                        if h.exc:
+                            text = ('exception_escaped', 'raised %s' % h.exc['type'])
+                        elif cls == 'disallowed' and (h.status != 400 or vd['changed']):
+                            text = ('disallowed_origin_admitted', 'status %r (state changed: %s)' % (h.status, vd['changed']))
+                        elif cls == 'disallowed' and vd['acao']:
+                            text = ('acao_overgrant', 'Access-Control-Allow-Origin %r' % vd['acao'])
+                        elif cls in ('allowed', 'absent') and h.status != 200:
+                            text = ('allowed_origin_refused', 'status %r' % h.status)
+                        if text:
+                            out.append(report.Violation(
+                                {'impl': impl, 'kind': text[0], 'trigger': 'two_sessions cfg=%s' % cfg},
+                                '[%s cfg=%s] two sessions opened and used via %r with their own origins; then a %s for session #%d via '
+                                'Host %r with Origin %r: %s' % (impl, cfg, hosts, kind, si, hst, org, text[1]),
+                                {'harness': 'two', 'impl': impl, 'cfg': cfg}, weight=(2, 0)))
+                    finally:
+                        w.teardown()
+
+
 def _work(chunk):
     out = []
     stats = {'worlds': 0, 'requests': 0}
     for impl, cfg, cred, cases in chunk:
+        if cases == 'TWO':
+            try:
+                run_two_sessions(impl, cfg, out, stats)
+            except report.Livelock as e:
+                out.append(report.livelock_violation(impl, e, {'harness': 'two', 'impl': impl, 'cfg': cfg}))
+            continue
         if cases == 'PAIRS':
             try:
                 run_pairs(impl, cfg, out, stats)
@@ -271,6 +333,8 @@ def run(ctx):
     for impl in ('sync', 'async'):
         for cfg in CFGS:
             jobs.append((impl, cfg, True, 'PAIRS'))
+        for cfg in ('none', 'star', 'empty'):
+            jobs.append((impl, cfg, True, 'TWO'))
     res = parallel.pmap_chunks(_work, [[j] for j in jobs], ctx.workers, ctx.seed, maxtasks=4)
     tot = {}
     nv = 0
@@ -286,7 +350,7 @@ def run(ctx):
         'rule': 'cors_allowed_origins {None,*,string,list,callable,[]} x credentials x 14 Origin values x Host {h, absent} x '
                 'X-Forwarded-Proto(%d) x X-Forwarded-Host(%d) x request kind {open, poll, post with a MESSAGE, '
                 'WebSocket upgrade, OPTIONS, OPTIONS+sid} x {Server, AsyncServer}; plus request pairs on one server (a first request with '
-                'X-Forwarded-* headers or with an allowed / case-variant / foreign Origin, then a second without forwarded headers) judged on the second alone: against the reference (for a callable the predicate itself) and differentially against the same request on a fresh server. Non-trivial = requests bearing an Origin header.'
+                'X-Forwarded-* headers or with an allowed / case-variant / foreign Origin, then a second without forwarded headers) judged on the second alone: against the reference (for a callable the predicate itself) and differentially against the same request on a fresh server; and a state with two sessions, each opened and used through its own host with its own origin, in which every (session, host, origin, kind) request is judged on its own. Non-trivial = requests bearing an Origin header.'
                 % (len(xfps), len(xfhs)),
         'samples': [{'cfg': 'string', 'origin': 'http://liste', 'kind': 'post'},
                     {'cfg': 'none', 'origin': 'https://pub.example', 'XFP': 'https', 'XFH': 'pub.example, inner.lan', 'kind': 'upgrade'},
@@ -307,6 +371,11 @@ def replay(ctx, payload):
     r = payload['replay']
     out = []
     st = {'worlds': 0, 'requests': 0}
+    if r.get('harness') == 'two':
+        run_two_sessions(r['impl'], r['cfg'], out, st)
+        for v in out[:5]:
+            print('REPLAY VIOLATION:', v.text)
+        return 1 if out else 0
     if r.get('harness') == 'pair':
         run_pairs(r['impl'], r['cfg'], out, st)
         for v in out[:5]:
